@@ -254,6 +254,7 @@ func (setupEngine) Run(ctx *fw.Ctx, cs any) {
 		job.V4 = []PlugConf{{c.Plugin, c.Args}}
 		job.Reqs, desc = battery4(rng, 40)
 	}
+	job.LogLevel = caseLogLevel(c.Seed)
 	out := RunChain(job, ctx.Scratch, 90*time.Second)
 	conf := fmt.Sprintf("%s %q (v6=%v)", c.Plugin, c.Args, c.V6)
 	if c.OtherProto {
